@@ -210,7 +210,7 @@ def Loop.evict (labels : List Nat) (ls : Loop φ) : Except (Err × Loop φ) (Loo
   | [] => .error (.other, ls)                                    -- next(iter({})) : StopIteration
   | labelRemove :: rest =>
     match locToIloc labels labelRemove with
-    | .error e => .error (e, ls)
+    | .error e => .error (e, { ls with lru := rest })            -- (the `del` precedes the lookup)
     | .ok idxRemove =>
       .ok { ls with lru := rest, loaded := ls.loaded.set idxRemove false,
                     array := ls.array.set idxRemove none, count := ls.count - 1 }
